@@ -58,4 +58,36 @@ theorem computeChecksum_eq (data : List Nat) : Gen.Fn.computeChecksum data = Tap
   unfold Gen.Fn.computeChecksum Tape.checksum
   simp only [and255]
 
+theorem writeFileLayout_eq (n : Nat) : Gen.Fn.writeFileLayout n = Disk.layoutOf n := by
+  unfold Gen.Fn.writeFileLayout Disk.layoutOf
+  simp only [computeRequiredSlots_eq]
+  first | rfl | grind
+
+/-- the three counters of `computeUsage`, whatever they start from -/
+theorem usage_fold (bat : List Nat) : ∀ (f r u : Nat),
+    (bat.foldl (fun u s => if Disk.isFree s then { u with free := u.free + 1 }
+                        else if Disk.isReserved s then { u with reserved := u.reserved + 1 }
+                        else { u with used := u.used + 1 }) (⟨u, r, f⟩ : Disk.Usage))
+    = (let t := bat.foldl (fun (x : Nat × Nat × Nat) ba =>
+          if Gen.Fn.isFree ba then (x.1 + 1, x.2.1, x.2.2)
+          else if Gen.Fn.isReserved ba then (x.1, x.2.1 + 1, x.2.2)
+          else (x.1, x.2.1, x.2.2 + 1)) (f, r, u)
+       (⟨t.2.2, t.2.1, t.1⟩ : Disk.Usage)) := by
+  induction bat with
+  | nil => intro f r u; rfl
+  | cons s rest ih =>
+    intro f r u
+    simp only [List.foldl_cons, isFree_eq, isReserved_eq]
+    by_cases h1 : Disk.isFree s = true
+    · simp only [h1, if_true]; exact ih (f + 1) r u
+    · by_cases h2 : Disk.isReserved s = true
+      · simp only [h1, h2, if_true, Bool.false_eq_true, if_false]; exact ih f (r + 1) u
+      · simp only [h1, h2, Bool.false_eq_true, if_false]; exact ih f r (u + 1)
+
+theorem computeUsage_eq (bat : List Nat) :
+    Gen.Fn.computeUsage bat = ((Disk.computeUsage bat).used, (Disk.computeUsage bat).reserved, (Disk.computeUsage bat).free) := by
+  unfold Gen.Fn.computeUsage Disk.computeUsage
+  rw [usage_fold bat 0 0 0]
+  try (first | rfl | grind)
+
 end Moto.GenFn
